@@ -154,6 +154,8 @@ fn add_stats(a: &mut Acc, s: &CaseStats) {
     add("dropped", s.dropped as u64);
     add("crashes", s.crashes as u64);
     add("crashes_lost_data", s.crashes_lost_data as u64);
+    add("async_fetches_completed", s.fetches_completed as u64);
+    add("async_fetches_that_sent_appends", s.fetches_sent as u64);
     add("restarts", s.restarts as u64);
     add("proposals_ok", s.proposals_ok as u64);
     add("proposals_dropped", s.proposals_dropped as u64);
